@@ -27,3 +27,12 @@ package cmd
 //@   ensures[C06] err == nil ==> ecOf(ctx) != nil && val(ecOf(ctx).Image) == fsFile[f.UefiPath]
 //@   ensures[C06] err == nil && f.SvsmPath != "" ==> val(ecOf(ctx).SvsmImage) == diskData[f.SvsmPath]
 //@   ensures[C06] err == nil && f.SvsmSnpMeasurementPath != "" ==> len(ecOf(ctx).SvsmSnpMeasurement) == 48
+// C15: loading the inputs touches neither the signer nor the certificate authority, in any run mode.
+//@   ensures[C15] caCalls == old(caCalls) && signerCalls == old(signerCalls) && vcGetOps == old(vcGetOps) && copsCalls == old(copsCalls)
+
+// C12 (serial one greater than the predecessor's unless an override is given): the rotate command keeps a serial
+// override as it is unless its value is exactly 0 (bigv is the mathematical value of a *big.Int); only then does it ask
+// for the predecessor's serial plus one.
+//@ func (*RotateCommand).InitContext
+//@   modifies *
+//@   ensures[C12,internal] err == nil && skc != nil && old(bigv)[old(skc.SigningKeySerial)] != 0 ==> skc.SigningKeySerial == old(skc.SigningKeySerial) && bigv[skc.SigningKeySerial] == old(bigv)[old(skc.SigningKeySerial)]
